@@ -13,11 +13,28 @@ def written (callable : Bool) : List Event → Str
   | [] => []
   | .write t :: es => t ++ written callable es
   | .read p :: es => if callable then written callable es else p ++ ['\n'] ++ written callable es
+  | .readKept p :: es => if callable then written callable es else p ++ ['\n'] ++ written callable es
 
+/-- calls of `input`, through whatever reference (the property counts them alike) -/
 def nReads : List Event → Nat
   | [] => 0
   | .write _ :: es => nReads es
   | .read _ :: es => nReads es + 1
+  | .readKept _ :: es => nReads es + 1
+
+/-- OBLIGATION ON THE GENERATED FILE: the mocked `input` resolves the sandbox's queue each time it
+is called (read from the source and measured with kept references + a rebound queue).  A tracker
+that captures the queue object when it is created fails here. -/
+theorem lookup_at_call : queueLookup = Lookup.atCall := rfl
+
+theorem keptIsLive_true : keptIsLive = true := by
+  simp [keptIsLive, lookup_at_call]
+
+/-- A call of `input` through a reference kept from an earlier execution is served exactly like a
+call through the current one: same queue, same record, same echo. -/
+theorem runEvents_readKept (src : InputSrc) (p : Str) (es : List Event) :
+    runEvents src (.readKept p :: es) = runEvents src (.read p :: es) := by
+  cases src <;> simp [runEvents, keptIsLive_true]
 
 @[simp] theorem out_buf (t : Str) (r : Res) : (r.out t).buf = t ++ r.buf := rfl
 @[simp] theorem out_src (t : Str) (r : Res) : (r.out t).src = r.src := rfl
@@ -44,13 +61,21 @@ theorem runEvents_buf (src : InputSrc) (tr : List Event) :
         cases q with
         | nil => simp [runEvents, popQueue_nil, written, InputSrc.isCallable, ih]
         | cons x q => simp [runEvents, popQueue_cons, written, InputSrc.isCallable, ih]
+    | readKept p =>
+      rw [runEvents_readKept]
+      cases src with
+      | callable f => simp [runEvents, written, InputSrc.isCallable, ih]
+      | queue q =>
+        cases q with
+        | nil => simp [runEvents, popQueue_nil, written, InputSrc.isCallable, ih]
+        | cons x q => simp [runEvents, popQueue_cons, written, InputSrc.isCallable, ih]
 
 /-- An execution never changes the kind of the input source. -/
 theorem runEvents_callable (f : Callable) (tr : List Event) :
     (runEvents (.callable f) tr).src = .callable f := by
   induction tr with
   | nil => rfl
-  | cons e es ih => cases e <;> simp [runEvents, ih]
+  | cons e es ih => cases e <;> simp [runEvents, keptIsLive_true, ih]
 
 /-- FIFO / once / default, for one execution starting with queue `q`. -/
 theorem runEvents_queue (q : List Str) (tr : List Event) :
@@ -73,6 +98,18 @@ theorem runEvents_queue (q : List Str) (tr : List Event) :
         have h := ih q
         simp [runEvents, popQueue_cons, nReads] at h ⊢
         exact ⟨h.1, h.2⟩
+    | readKept p =>
+      rw [runEvents_readKept]
+      cases q with
+      | nil =>
+        have h := ih []
+        simp [runEvents, popQueue_nil, nReads] at h ⊢
+        refine ⟨h.1, ?_⟩
+        rw [h.2, List.replicate_succ]
+      | cons x q =>
+        have h := ih q
+        simp [runEvents, popQueue_cons, nReads] at h ⊢
+        exact ⟨h.1, h.2⟩
 
 /-- the flags on returned values: popped values are exactly the first `min n |q|`. -/
 theorem runEvents_popped (q : List Str) (tr : List Event) :
@@ -83,6 +120,11 @@ theorem runEvents_popped (q : List Str) (tr : List Event) :
     cases e with
     | write t => simpa [runEvents, nReads] using ih q
     | read p =>
+      cases q with
+      | nil => simpa [runEvents, popQueue_nil, nReads] using ih []
+      | cons x q => simpa [runEvents, popQueue_cons, nReads] using ih q
+    | readKept p =>
+      rw [runEvents_readKept]
       cases q with
       | nil => simpa [runEvents, popQueue_nil, nReads] using ih []
       | cons x q => simpa [runEvents, popQueue_cons, nReads] using ih q
